@@ -2,9 +2,13 @@
 package c06
 
 import (
+	"strconv"
+	"sync/atomic"
+
 	"bytes"
 	"encoding/binary"
 	"fmt"
+	"github.com/whatap/golib/config"
 	"net"
 	"sync"
 	"testing"
@@ -36,18 +40,40 @@ type pconn struct {
 }
 
 type peer struct {
-	mu    sync.Mutex
-	cond  *sync.Cond
-	addr  string
-	ln    net.Listener
-	conns []*pconn
-	wg    sync.WaitGroup
+	mu     sync.Mutex
+	cond   *sync.Cond
+	addr   string
+	ln     net.Listener
+	conns  []*pconn
+	wg     sync.WaitGroup
+	paused bool // the collector is busy: it does not read from its connections for a while
+	slow   bool // the collector is alive but slower than the agent: 16 KiB every 2 ms
 }
 
-func newPeer() (*peer, error) {
+func newPeer() (*peer, error) { return newPeerAt("127.0.0.1:0") }
+
+var peer6600 atomic.Int64
+
+// newPeer6600 listens on port 6600 (the port ApplyConfig always derives) of a loopback address that is private to
+// this process and case: 127.6.<shard+1>.<n>.
+func newPeer6600() (*peer, error) {
+	shard, _ := pbt.Shard()
+	var lastErr error
+	for try := 0; try < 20; try++ {
+		n := peer6600.Add(1)
+		p, err := newPeerAt(fmt.Sprintf("127.6.%d.%d:6600", shard+1, 1+n%250))
+		if err == nil {
+			return p, nil
+		}
+		lastErr = err
+	}
+	return nil, lastErr
+}
+
+func newPeerAt(addr string) (*peer, error) {
 	p := &peer{}
 	p.cond = sync.NewCond(&p.mu)
-	ln, err := net.Listen("tcp", "127.0.0.1:0")
+	ln, err := net.Listen("tcp", addr)
 	if err != nil {
 		return nil, err
 	}
@@ -84,7 +110,18 @@ func (p *peer) reader(pc *pconn) {
 	tmp := make([]byte, 64*1024)
 	for {
 		p.mu.Lock()
+		if p.paused && !pc.cut {
+			p.mu.Unlock()
+			time.Sleep(300 * time.Microsecond)
+			continue
+		}
 		want := len(tmp)
+		if p.slow && !pc.cut {
+			want = 16 * 1024
+			p.mu.Unlock()
+			time.Sleep(2 * time.Millisecond)
+			p.mu.Lock()
+		}
 		if pc.limit >= 0 {
 			if rem := pc.limit - len(pc.buf); rem <= 0 {
 				pc.cut = true
@@ -159,6 +196,21 @@ func (p *peer) cutCurrent(after int) {
 	pc.cut = true
 }
 
+func (p *peer) setPaused(b bool) {
+	p.mu.Lock()
+	p.paused = b
+	if !b {
+		p.slow = false
+	}
+	p.mu.Unlock()
+}
+
+func (p *peer) setSlow() {
+	p.mu.Lock()
+	p.slow = true
+	p.mu.Unlock()
+}
+
 func (p *peer) stopListening() {
 	p.mu.Lock()
 	ln := p.ln
@@ -216,7 +268,7 @@ func splitFrames(b []byte) (frames [][]byte, rest []byte, err error) {
 // ---- cases -----------------------------------------------------------------------------------
 
 type Action struct {
-	K        string `json:"k"`                  // send | burst | cut | reset | down | up | idle
+	K        string `json:"k"`                  // send | burst | cut | reset | down | up | idle | pause | resume | reconnect | reconf
 	Ms       int    `json:"ms,omitempty"`       // idle: nothing is sent for this many milliseconds
 	Size     int    `json:"size,omitempty"`     // filler bytes of the pack (send, burst)
 	Seed     uint64 `json:"seed,omitempty"`     // pack content
@@ -231,7 +283,54 @@ type Case struct {
 	// TimeoutMs: the client's write timeout (exported field Timeout); 0 = 5 s. Histories with an "idle" action use a
 	// short one so that the connection can grow older than the timeout within the case.
 	TimeoutMs int `json:"timeout_ms,omitempty"`
+	// Port6600: the peer listens on port 6600 of a private loopback address, so that "reconf" actions can change the
+	// client's license through ApplyConfig (which always derives port 6600)
+	Port6600 bool `json:"port6600,omitempty"`
 }
+
+// mapConf is the configuration handed to ApplyConfig.
+type mapConf map[string]string
+
+func (m mapConf) ApplyDefault()       {}
+func (m mapConf) GetConfFile() string { return "" }
+func (m mapConf) Destroy()            {}
+func (m mapConf) GetKeys() []string {
+	var ks []string
+	for k := range m {
+		ks = append(ks, k)
+	}
+	return ks
+}
+func (m mapConf) GetValue(key string) string { return m[key] }
+func (m mapConf) GetValueDef(key, def string) string {
+	if v, ok := m[key]; ok && v != "" {
+		return v
+	}
+	return def
+}
+func (m mapConf) GetBoolean(key string, def bool) bool { return def }
+func (m mapConf) GetInt(key string, def int) int32 {
+	if v, err := strconv.Atoi(m[key]); err == nil {
+		return int32(v)
+	}
+	return int32(def)
+}
+func (m mapConf) GetIntSet(key, def, deli string) []int32 { return nil }
+func (m mapConf) GetLong(key string, def int64) int64 {
+	if v, err := strconv.ParseInt(m[key], 10, 64); err == nil {
+		return v
+	}
+	return def
+}
+func (m mapConf) GetStringArray(key string, def string, deli string) []string { return nil }
+func (m mapConf) GetStringHashSet(key, def, deli string) []int32              { return nil }
+func (m mapConf) GetStringHashCodeSet(key, def, deli string) []int32          { return nil }
+func (m mapConf) GetFloat(key string, def float32) float32                    { return def }
+func (m mapConf) SetValues(v *map[string]string)                              {}
+func (m mapConf) ToString() string                                            { return fmt.Sprint(map[string]string(m)) }
+func (m mapConf) String() string                                              { return m.ToString() }
+
+var _ config.Config = mapConf{}
 
 type sent struct {
 	id    int64
@@ -262,7 +361,10 @@ const clientLicense = "license-of-the-client"
 const overrideLicense = "per-send-license"
 
 func expectedFrame(p pack.Pack, override bool) []byte {
-	lic := clientLicense
+	return expectedFrameLic(p, override, clientLicense)
+}
+
+func expectedFrameLic(p pack.Pack, override bool, lic string) []byte {
 	if override {
 		lic = overrideLicense
 	}
@@ -290,6 +392,12 @@ type runner struct {
 	listening                           bool
 	connsAtFault                        int
 	faults, deliveredAfterFault, bursts int
+	license                             string // the client default in force
+	paused                              bool
+	pausedBytes, closesWithBacklog      int
+	pausedIdx                           []int
+	slow                                bool
+	reconfs                             int
 }
 
 func (r *runner) received() map[int]int { // index in all -> connection index
@@ -326,16 +434,40 @@ func (r *runner) waitReceived(idx int, minConn int) bool {
 	})
 }
 
+// resume lets the collector read again and waits until it has caught up with everything accepted meanwhile.
+func (r *runner) resume() string {
+	r.pr.setPaused(false)
+	r.paused, r.slow = false, false
+	for _, i := range r.pausedIdx {
+		if !r.waitReceived(i, 0) {
+			return fmt.Sprintf("send id %d returned nil on a healthy connection while the collector was slow to read (%d closes by the owner happened with frames still unread) but its frame never arrived", r.all[i].id, r.closesWithBacklog)
+		}
+	}
+	r.pausedIdx, r.pausedBytes = nil, 0
+	return ""
+}
+
 func (r *runner) record(p pack.Pack, override bool, g int) int {
-	f := expectedFrame(p, override)
+	lic := r.license
+	if lic == "" {
+		lic = clientLicense
+	}
+	f := expectedFrameLic(p, override, lic)
 	r.all = append(r.all, sent{id: p.GetTime(), frame: f, g: g})
 	r.byFrame[string(f)] = len(r.all) - 1
 	return len(r.all) - 1
 }
 
 func run(c Case) *pbt.Result {
-	pr, err := newPeer()
+	mk := newPeer
+	if c.Port6600 {
+		mk = newPeer6600
+	}
+	pr, err := mk()
 	if err != nil {
+		if c.Port6600 {
+			return &pbt.Result{Classes: []string{"harness-could-not-listen-on-port-6600"}}
+		}
 		return pbt.Fail("harness cannot listen: %v", err)
 	}
 	defer pr.shutdown()
@@ -346,9 +478,25 @@ func run(c Case) *pbt.Result {
 	}
 	defer cl.Close()
 	idles := 0
-	r := &runner{pr: pr, cl: cl, byFrame: map[string]int{}, guaranteed: map[int]bool{}, listening: true}
+	r := &runner{pr: pr, cl: cl, byFrame: map[string]int{}, guaranteed: map[int]bool{}, listening: true, license: clientLicense}
 
 	for ai, a := range c.Actions {
+		if r.paused {
+			// the collector reads again (and catches up) before anything but small sends and closes by the owner
+			resume := false
+			switch a.K {
+			case "send":
+				resume = !r.slow && (a.Size > 5000 || r.pausedBytes > 40000) || r.slow && (a.Size > 70000 || r.pausedBytes > 3000000)
+			case "reconnect", "reconf", "pause":
+			default:
+				resume = true
+			}
+			if resume {
+				if msg := r.resume(); msg != "" {
+					return pbt.Fail("action %d: %s", ai, msg)
+				}
+			}
+		}
 		switch a.K {
 		case "send":
 			r.nextID++
@@ -361,7 +509,10 @@ func run(c Case) *pbt.Result {
 					return pbt.Fail("action %d: Send on a healthy connection (listener up, no fault injected) returned %v", ai, err)
 				}
 				r.guaranteed[idx] = true
-				if !r.waitReceived(idx, 0) {
+				if r.paused {
+					r.pausedBytes += len(r.all[idx].frame) // the collector will read it when it has time
+					r.pausedIdx = append(r.pausedIdx, idx)
+				} else if !r.waitReceived(idx, 0) {
 					return pbt.Fail("action %d: Send returned nil on a healthy connection but the frame (id %d, %d bytes) was not received within %v", ai, r.nextID, len(r.all[idx].frame), waitLimit)
 				}
 			case err != nil:
@@ -464,6 +615,42 @@ func run(c Case) *pbt.Result {
 			r.listening = false
 			r.faulted, r.errSeen, r.attempts = true, false, 0
 			r.faults++
+		case "pause":
+			// the collector stops reading for a while; only little is sent meanwhile (it all fits the socket buffers)
+			if r.faulted || !r.listening || pr.nconns() == 0 {
+				continue
+			}
+			if a.Seed%2 == 1 {
+				pr.setSlow() // slower than the agent: larger packs may be sent meanwhile
+				r.slow = true
+			} else {
+				pr.setPaused(true)
+			}
+			r.paused = true
+		case "resume":
+			// handled above
+		case "reconnect":
+			// the owner closes the connection (as ApplyConfig does on a license change); accepted frames stay accepted
+			if r.faulted || !r.listening {
+				continue
+			}
+			if r.paused && r.pausedBytes > 0 {
+				r.closesWithBacklog++
+			}
+			cl.Close()
+		case "reconf":
+			// a configuration reload with another license: later sends carry its hash
+			if !c.Port6600 || r.faulted || !r.listening {
+				continue
+			}
+			if r.paused && r.pausedBytes > 0 {
+				r.closesWithBacklog++
+			}
+			host, _, _ := net.SplitHostPort(pr.addr)
+			r.license = fmt.Sprintf("license-%d-after-reload", a.Seed%5)
+			cl.ApplyConfig(mapConf{"license": r.license, "whatap.server.host": host, "pcode": "77"})
+			cl.Timeout = 5 * time.Second
+			r.reconfs++
 		case "idle":
 			// a quiet period; the connection stays healthy, however old it gets
 			time.Sleep(time.Duration(a.Ms) * time.Millisecond)
@@ -482,6 +669,9 @@ func run(c Case) *pbt.Result {
 		}
 	}
 	// final audit of everything every connection received
+	if msg := r.resume(); msg != "" {
+		return pbt.Fail("at the end: %s", msg)
+	}
 	time.Sleep(30 * time.Millisecond)
 	pr.mu.Lock()
 	seen := map[int]int{}
@@ -528,7 +718,7 @@ func run(c Case) *pbt.Result {
 			return pbt.Fail("send id %d returned nil on a healthy connection but its frame is in no connection's stream", r.all[i].id)
 		}
 	}
-	classes := []string{fmt.Sprintf("idle-periods-on-a-healthy-connection=%d", min(idles, 2)), fmt.Sprintf("faults=%d", min(r.faults, 3)), fmt.Sprintf("recovered=%d", min(r.deliveredAfterFault, 3)), fmt.Sprintf("bursts=%d", min(r.bursts, 2)), fmt.Sprintf("connections=%d", min(pr.nconns(), 4))}
+	classes := []string{fmt.Sprintf("idle-periods-on-a-healthy-connection=%d", min(idles, 2)), fmt.Sprintf("owner-closes-with-unread-frames=%d", min(r.closesWithBacklog, 2)), fmt.Sprintf("license-reloads=%d", min(r.reconfs, 2)), fmt.Sprintf("faults=%d", min(r.faults, 3)), fmt.Sprintf("recovered=%d", min(r.deliveredAfterFault, 3)), fmt.Sprintf("bursts=%d", min(r.bursts, 2)), fmt.Sprintf("connections=%d", min(pr.nconns(), 4))}
 	return &pbt.Result{NT: r.deliveredAfterFault >= 1 || r.bursts >= 1, Classes: classes}
 }
 
@@ -543,9 +733,11 @@ func drawActions(t *rapid.T, big bool) []Action {
 	n := rapid.IntRange(3, 30).Draw(t, "n")
 	var out []Action
 	for i := 0; i < n; i++ {
-		k := rapid.SampledFrom([]string{"send", "send", "send", "send", "send", "burst", "cut", "reset", "down", "up", "up"}).Draw(t, "k")
+		k := rapid.SampledFrom([]string{"send", "send", "send", "send", "send", "send", "burst", "cut", "reset", "down", "up", "up", "pause", "reconnect", "reconf", "resume"}).Draw(t, "k")
 		a := Action{K: k}
 		switch k {
+		case "reconf":
+			a.Seed = rapid.Uint64().Draw(t, "seed")
 		case "send", "burst":
 			a.Seed = rapid.Uint64().Draw(t, "seed")
 			a.Override = rapid.IntRange(0, 3).Draw(t, "ovr") == 0
@@ -571,10 +763,33 @@ func drawActions(t *rapid.T, big bool) []Action {
 
 var specDirect = pbt.Register(pbt.Spec[Case]{
 	Prop: "C06", Name: "direct-mode-histories",
-	Rule:  "histories on a fresh one-way client in direct mode against a harness-owned loopback peer: send (packs of 6 types, 30 B..2.5 MB so that frames exceed the 2 MiB write buffer in the thorough tier, with/without per-send license), burst (2-8 goroutines x 1-6 concurrent sends), peer faults: cut after n bytes of the next frame (mid-header, mid-payload), cut between frames, reset, listener down (k failed connects) / up; in a quarter of the histories the write timeout is 250-400 ms and 1-2 quiet periods longer than it are inserted (the connection stays healthy however old it is); oracle = every connection's stream is a concatenation of whole frames (a partial tail only where the peer cut), every frame equals the reference frame of exactly one send (pack's project code, hash of the license in force, exact length), none twice, per-sender order kept, every send that returned nil on a healthy connection is received, from the first reported error on the client recovers within three sends once the listener is up and the first nil send arrives on a new connection; non-trivial = a frame delivered after a fault, or a concurrent burst; distinct by case",
+	Rule:  "histories on a fresh one-way client in direct mode against a harness-owned loopback peer: send (packs of 6 types, 30 B..2.5 MB so that frames exceed the 2 MiB write buffer in the thorough tier, with/without per-send license), burst (2-8 goroutines x 1-6 concurrent sends), peer faults: cut after n bytes of the next frame (mid-header, mid-payload), cut between frames, reset, listener down (k failed connects) / up; collector pauses reading or reads slowly (16 KiB per 2 ms) / resumes, the owner closes the connection (Close, or ApplyConfig with another license when the peer listens on port 6600) with or without accepted frames still unread; in a quarter of the histories the write timeout is 250-400 ms and 1-2 quiet periods longer than it are inserted (the connection stays healthy however old it is); oracle = every connection's stream is a concatenation of whole frames (a partial tail only where the peer cut), every frame equals the reference frame of exactly one send (pack's project code, hash of the license in force, exact length), none twice, per-sender order kept, every send that returned nil on a healthy connection is received, from the first reported error on the client recovers within three sends once the listener is up and the first nil send arrives on a new connection; non-trivial = a frame delivered after a fault, or a concurrent burst; distinct by case",
 	Quick: 60, Thorough: 2000,
 	Draw: func(t *rapid.T) Case {
 		c := Case{Actions: drawActions(t, pbt.Thorough())}
+		c.Port6600 = rapid.Bool().Draw(t, "port6600")
+		if rapid.IntRange(0, 2).Draw(t, "withbacklogclose") == 0 {
+			// the collector is slow, a few small packs are accepted, the owner closes (or reloads the license), more packs
+			block := []Action{{K: "pause"}}
+			if rapid.Bool().Draw(t, "slowcollector") {
+				// alive but slower than the agent: a backlog of large packs builds up in the connection
+				block[0].Seed = 1
+				for k := rapid.IntRange(4, 24).Draw(t, "nbacklog"); k > 0; k-- {
+					block = append(block, Action{K: "send", Seed: rapid.Uint64().Draw(t, "seed"), Size: rapid.SampledFrom([]int{5000, 70000, 70000}).Draw(t, "size")})
+				}
+			} else {
+				for k := rapid.IntRange(1, 4).Draw(t, "nbacklog"); k > 0; k-- {
+					block = append(block, Action{K: "send", Seed: rapid.Uint64().Draw(t, "seed"), Size: rapid.SampledFrom([]int{0, 0, 100, 3000}).Draw(t, "size")})
+				}
+			}
+			closeKind := "reconnect"
+			if c.Port6600 && rapid.Bool().Draw(t, "byreload") {
+				closeKind = "reconf"
+			}
+			block = append(block, Action{K: closeKind, Seed: rapid.Uint64().Draw(t, "seed")}, Action{K: "send", Seed: rapid.Uint64().Draw(t, "seed")}, Action{K: "resume"})
+			at := rapid.IntRange(0, len(c.Actions)).Draw(t, "blockat")
+			c.Actions = append(c.Actions[:at], append(block, c.Actions[at:]...)...)
+		}
 		if rapid.IntRange(0, 3).Draw(t, "withidle") == 0 {
 			// 1-2 quiet periods longer than the write timeout, small frames only (a short timeout must not be what a large frame runs into)
 			c.TimeoutMs = rapid.IntRange(250, 400).Draw(t, "timeout")
@@ -606,6 +821,11 @@ func TestDirectMode(t *testing.T) {
 		// the peer goes away in the middle of a frame that is larger than the client's 2 MiB write buffer
 		{Actions: []Action{{K: "send", Seed: 1}, {K: "cut", After: 65536}, {K: "send", Seed: 2, Size: 2500000}, {K: "send", Seed: 3}, {K: "send", Seed: 4}, {K: "send", Seed: 5}, {K: "send", Seed: 6}}},
 		{Actions: []Action{{K: "send", Seed: 1}, {K: "cut", After: 2200000}, {K: "send", Seed: 2, Size: 2500000}, {K: "send", Seed: 3, Size: 100}, {K: "send", Seed: 4}, {K: "send", Seed: 5}, {K: "send", Seed: 6}}},
+		// the owner closes the connection while the collector has not yet read what was accepted
+		{Actions: []Action{{K: "send", Seed: 1}, {K: "pause"}, {K: "send", Seed: 2}, {K: "send", Seed: 3, Size: 3000}, {K: "send", Seed: 4}, {K: "reconnect"}, {K: "send", Seed: 5}, {K: "resume"}, {K: "send", Seed: 6}}},
+		{Actions: []Action{{K: "send", Seed: 1}, {K: "pause", Seed: 1}, {K: "send", Seed: 2, Size: 70000}, {K: "send", Seed: 3, Size: 70000}, {K: "send", Seed: 4, Size: 70000}, {K: "send", Seed: 5, Size: 70000}, {K: "send", Seed: 6, Size: 70000}, {K: "send", Seed: 7, Size: 70000}, {K: "send", Seed: 8, Size: 70000}, {K: "send", Seed: 9, Size: 70000}, {K: "send", Seed: 10, Size: 70000}, {K: "send", Seed: 11, Size: 70000}, {K: "send", Seed: 12, Size: 70000}, {K: "send", Seed: 13, Size: 70000}, {K: "reconnect"}, {K: "send", Seed: 14}, {K: "resume"}, {K: "send", Seed: 15}}},
+		// the license changes through a configuration reload (peer on port 6600)
+		{Port6600: true, Actions: []Action{{K: "send", Seed: 1}, {K: "reconf", Seed: 1}, {K: "send", Seed: 2}, {K: "send", Seed: 3, Override: true}, {K: "reconf", Seed: 2}, {K: "send", Seed: 4}, {K: "pause"}, {K: "send", Seed: 5}, {K: "reconf", Seed: 3}, {K: "send", Seed: 6}, {K: "resume"}}},
 		// a healthy connection that is older than the write timeout
 		{TimeoutMs: 300, Actions: []Action{{K: "send", Seed: 1}, {K: "send", Seed: 2}, {K: "idle", Ms: 450}, {K: "send", Seed: 3}, {K: "send", Seed: 4}, {K: "send", Seed: 5}, {K: "idle", Ms: 350}, {K: "send", Seed: 6}, {K: "send", Seed: 7}}},
 	} {
